@@ -792,7 +792,33 @@ def rule_e8(ctx) -> None:
                 ctx.finding("C07-E8", "%s:mutates-memoised-composition" % q.split("synrbl.", 1)[-1], g.loc(node), "%s: every later decompose() of the same SMILES returns the mutated dictionary (%s)" % (why[:120], unparse(node)[:50]))
 
 
+def rule_e10(ctx) -> None:
+    """Counting atoms through the substructure matcher: GetSubstructMatches stops at maxMatches (default 1000), so
+    `len(mol.GetSubstructMatches(q))` is a count only with an explicit, sufficient maxMatches."""
+    ctx.rule("C07-E10", "atom counts are not taken as the length of a capped match list (GetSubstructMatches defaults to maxMatches=1000)", 0)
+    prog = ctx.prog
+    scope = [f for q, f in prog.functions.items() if q.startswith("synrbl.SynProcessor.") or q.startswith("synrbl.SynUtils.chem_utils")]
+    for f in scope:
+        for c in calls(f):
+            if isinstance(c.func, ast.Name) and c.func.id == "len" and c.args:
+                a = c.args[0]
+                if isinstance(a, ast.Name):
+                    asg = assignments_to(f, a.id)
+                    a = asg[0][1] if len(asg) == 1 else a
+                if isinstance(a, ast.Call) and isinstance(a.func, ast.Attribute) and a.func.attr == "GetSubstructMatches":
+                    mm = next((k.value for k in a.keywords if k.arg == "maxMatches"), None)
+                    ok = mm is not None and not (isinstance(mm, ast.Constant) and isinstance(mm.value, int) and mm.value <= 1000)
+                    ctx.instance("C07-E10", "%s: %s (maxMatches: %s)" % (f.qualname.split("synrbl.", 1)[-1], unparse(c)[:60], unparse(mm) if mm is not None else "default 1000"), f.loc(c), ok=ok)
+                    if not ok:
+                        ctx.finding("C07-E10", "%s:capped-match-count" % f.qualname.split("synrbl.", 1)[-1], f.loc(c), "%s counts atoms as the number of substructure matches, which RDKit caps at maxMatches (default 1000): a component with more atoms of the element is under-counted and the two sides compare equal when they are not" % unparse(c)[:60])
+
+
 def check(ctx) -> None:
+    rule_e10(ctx)
+    # E9: composition i belongs to side i (shared with C06-B1, submission order of the parallel decomposition)
+    from . import c06
+
+    c06.rule_submission_order(ctx, {q for q in ctx.prog.functions if q.startswith("synrbl.SynProcessor.")}, "C07-E9")
     rule_e8(ctx)
     rule_e1(ctx)
     rule_e2(ctx)
